@@ -17,17 +17,17 @@ Proof. first [reflexivity | intros; unfold within, sel_minor_keep; tie_sem]. Qed
 
 (* s.score += cn_sol.score - min_cn_score *)
 Lemma sel_major_carry_tied : forall min_cn cns j, In j (major_candidates min_cn cns) ->
-  jc_score j = (ma_raw (jc_in j) + sel_major_carry (cn_score (jc_cn j)) min_cn)%Q.
+  (jc_score j == ma_raw (jc_in j) + sel_major_carry (cn_score (jc_cn j)) min_cn)%Q.
 Proof.
   intros min_cn cns j H. unfold major_candidates in H. apply in_flat_map in H. destruct H as (cn & _ & H).
-  apply in_map_iff in H. destruct H as (m & <- & _). reflexivity.
+  apply in_map_iff in H. destruct H as (m & <- & _). first [reflexivity | cbn [jc_score jc_in jc_cn]; unfold sel_major_carry; tie_q].
 Qed.
 
 (* minor.py s.score += major_sol.score - min_score ; genotype.py m.score * ((cn.score + SLACK) / (min_cn_score + SLACK)) *)
 Lemma sel_combined_tied : forall c min_cn min_major j m,
-  combined c min_cn min_major j m =
-  sel_rescale (mi_raw m + sel_minor_carry (jc_score j) min_major) (cn_score (jc_cn j)) min_cn (c_slack c).
-Proof. reflexivity. Qed.
+  (combined c min_cn min_major j m ==
+   sel_rescale (mi_raw m + sel_minor_carry (jc_score j) min_major) (cn_score (jc_cn j)) min_cn (c_slack c))%Q.
+Proof. first [reflexivity | intros; unfold combined, sel_rescale, sel_minor_carry; tie_q]. Qed.
 
 (* int(1000 * m.score): the three sort keys use the translated scale *)
 Lemma sel_sort_key_tied : forall (A : Type) (name : A -> str) (score : A -> Q) (a : A) (k : nat), (k < 3)%nat ->
